@@ -5,7 +5,7 @@ at a time; tasks interleave only at their await points):
   futures_task         waker_ref / ArcWake        WakerRef token that forwards to the crate's own `ArcWake::wake_by_ref`
   async-event 0.2      Event / WaitUntil          FIFO wait set; poll = remove own notifier, predicate, insert notifier,
                                                    predicate again (cancel passes a notification on), Pending
-  diatomic-waker 0.2   DiatomicWaker, WakeSink/Source   one registered waker; notify wakes it by reference
+  diatomic-waker 0.2   DiatomicWaker, WakeSink/Source   one registered waker; notify wakes it and unregisters it
   multishot 0.3        Receiver / Sender / Recv   one-shot reply slot, reusable once the reply was received
   recycle-box 0.2      RecycleBox                 a box whose allocation is reused (identity of the allocation is kept)
   std::thread_local    LocalKey<Cell<isize>>      the in-flight message counter (one counter: execution is sequential)
@@ -144,9 +144,12 @@ def install(M, world):
         return Opaque("DiatomicWaker", slot=[None])
 
     def dw_notify(it, cal, args):
+        # "Sends a notification if a waker is registered. This automatically unregisters any waker that may have been
+        # previously registered." (diatomic-waker 0.2.3, waker.rs: try_lock clears REGISTERED)
         d = deref_all(it, args[0])
         if d.data["slot"][0] is not None:
-            do_wake(it, d.data["slot"][0])
+            w_, d.data["slot"][0] = d.data["slot"][0], None
+            do_wake(it, w_)
         return unit()
 
     def dw_register(it, cal, args):
@@ -189,7 +192,8 @@ def install(M, world):
     def source_notify(it, cal, args):
         d = deref_all(it, args[0]).data["dw"]
         if d.data["slot"][0] is not None:
-            do_wake(it, d.data["slot"][0])
+            w_, d.data["slot"][0] = d.data["slot"][0], None
+            do_wake(it, w_)
         return unit()
 
     # ---------------------------------------------------------------- multishot
